@@ -31,6 +31,11 @@
 (*   PerturbationRejected  any other key, seed, index, step, seat count or *)
 (*                       proof is rejected                                 *)
 (*   PriorityIsMax       the priority is the largest hash over the seats   *)
+(*   IssuerBindsLookBack a credential issued by the real SortitionManager  *)
+(*                       for a step verifies with the seed / stake /       *)
+(*                       threshold of its own look-back class (when it     *)
+(*                       selects; a proposer credential always) and not    *)
+(*                       under the other class's seed (line issuer)        *)
 (*   OutputUniquePerKeyMessage  among all proofs the real ProofToHash      *)
 (*                       accepts for one (key, message) -- honest ones and *)
 (*                       those a malicious key holder makes with other     *)
@@ -51,7 +56,7 @@ Keys == {"QuantileExact", "QuantileExact_endpoint", "QuantileExact_upper_tail", 
          "VerifierRecomputes_recompute_rejected", "PerturbationRejected", "PerturbationRejected_selected", "PriorityIsMax", "PriorityIsMax_several_seats",
          "PerturbationRejected_tail", "PriorityIsMax_two_byte_seats", "SeqIssue", "SeqVerify_as_issued", "SeqVerify_perturbed",
          "OutputUniquePerKeyMessage", "OutputUnique_malleations_presented", "OutputUnique_malleations_accepted", "unique_transcription_rejected",
-         "QuantileExact_window", "Alias_calls", "PriorityIsMax_argmax_on_multiple_of_256", "PriorityIsMax_argmax_searched",
+         "QuantileExact_window", "Alias_calls", "IssuerBindsLookBack", "IssuerBindsLookBack_certificate", "IssuerBindsLookBack_selected", "PriorityIsMax_argmax_on_multiple_of_256", "PriorityIsMax_argmax_searched",
          "skipped", "scan_steps", "max_bits"}
 
 Live(e) == "skip" \notin DOMAIN e /\ "panic" \notin DOMAIN e
@@ -120,6 +125,12 @@ JudgePlain(e) ==
    THEN [v |-> IF IsMax(e) THEN {} ELSE { <<"PriorityIsMax", {"computePriority"}>> },
          f |-> {"PriorityIsMax"} \cup (IF e.j >= 1 THEN {"PriorityIsMax_several_seats"} ELSE {})
                                  \cup (IF e.j >= 256 THEN {"PriorityIsMax_two_byte_seats"} ELSE {})]
+   ELSE IF e.ev = "issuer"
+   THEN (IF "panic" \in DOMAIN e \/ "noview" \in DOMAIN e THEN [v |-> { <<"IssuerBindsLookBack", {e.role, "no_credential"}>> }, f |-> {"IssuerBindsLookBack"}]
+         ELSE [v |-> (IF e.own = (e.role = "proposal" \/ e.j > 0) THEN {} ELSE { <<"IssuerBindsLookBack", {e.role, "own_look_back", IF e.own THEN "accepted" ELSE "rejected"}>> })
+                     \cup (IF e.other THEN { <<"IssuerBindsLookBack", {e.role, "other_look_back_seed_accepted"}>> } ELSE {}),
+               f |-> {"IssuerBindsLookBack"} \cup (IF e.role = "certificate" THEN {"IssuerBindsLookBack_certificate"} ELSE {})
+                     \cup (IF e.j > 0 THEN {"IssuerBindsLookBack_selected"} ELSE {})])
    ELSE IF e.ev = "argmax"      \* bookkeeping of the argmax stage (the verdict is the PriorityIsMax line before it)
    THEN [v |-> {}, f |-> {"PriorityIsMax_argmax_searched"} \cup (IF e.argmax > 0 /\ e.argmax % 256 = 0 THEN {"PriorityIsMax_argmax_on_multiple_of_256"} ELSE {})]
    ELSE IF e.ev = "vrf_unique"
@@ -176,7 +187,7 @@ Step ==
               ELSE /\ pc' = "scan" /\ i' = 0 /\ den' = Den(e.q.w, e.q.b)
                    /\ term' = Term0(e.q.w, e.q.a, e.q.b) /\ cum' = Term0(e.q.w, e.q.a, e.q.b) /\ prev' = Zero
                    /\ UNCHANGED <<l, viol, fired, inexact, iss>>
-         ELSE /\ Finish(IF e.ev \in {"choose", "verify", "priority", "seq_issue", "seq_verify", "vrf_unique", "argmax"} THEN JudgePlain(e) ELSE [v |-> {}, f |-> {}], 0, 0)
+         ELSE /\ Finish(IF e.ev \in {"choose", "verify", "priority", "seq_issue", "seq_verify", "vrf_unique", "argmax", "issuer"} THEN JudgePlain(e) ELSE [v |-> {}, f |-> {}], 0, 0)
               /\ UNCHANGED inexact
    \/ /\ pc = "scan"
       /\ LET e == TraceLog[l] q == e.q IN
